@@ -106,6 +106,15 @@ CLAIMS["C17"] = dict(text="bounded symbolic model checking of the numpy-only mes
                     "mach_zehnder equal to its documented matrix for all angles; (2) rectangular, rectangular_phase_end and triangular reconstruct every "
                     "U(2) (explicit 4-angle parametrisation) with a unit-modulus diagonal; (3) a non-unitary 2x2 input is refused by all five meshes",
                     design_ref="5/C17", note=NOTE + "; partial claim: takagi/williamson/bloch_messiah (LAPACK) and sun_compact are not encodable; end-to-end for the MZ meshes and sizes > 2 are outside (3x3 rectangular in the thorough tier)")
+CLAIMS["C13"] = dict(text="bounded symbolic model checking + CrossHair: (1) for single-band loop bodies (squeezer, one or two beamsplitter loops, rotation, "
+                    "homodyne on the leading mode) with N in {2,3} concurrent modes, T<=3 (4 thorough) time bins, shift 'default' and 1, symbolic "
+                    "per-bin parameter arrays, the real unrolled program (TDMProgram.unroll on N modes) and an explicit loop with a fresh mode per pulse "
+                    "are run on the real Gaussian backend from an ARBITRARY symbolic state of the register with shared symbolic outcomes: every "
+                    "measurement is handed the same (mean, covariance) -- equal conditionals at every step, hence equal joint distribution -- and the "
+                    "unmeasured pulses end in the same state; roll() restores circuit and register by identity; (2) every call sequence of length <=3 "
+                    "over unroll(1|2)/space_unroll/roll leaves the expected form; (3) CrossHair: reshape_samples puts the outcome of pulse (shot, band, "
+                    "bin) at that entry for symbolic N<=4, T<=4, shots<=3 (one band) and two bands of <=3", design_ref="5/C13",
+                    note=NOTE + "; gate parameters are assumed non-zero in the loop harness (the p[0]==0 identity shortcut of Gate.apply is checked in C01/C02); outside: multi-band loop meaning, space_unroll state equality, T>4, crop/delay arithmetic")
 NA_DEFAULT = "check not built yet in this session (plan: DESIGN.md section 5)"
 NA = {}
 
